@@ -195,6 +195,16 @@ def gen_folding():
                 out.append(P(d, "r = %s ? %s : %s;" % (x, dead, live), ("cfold", x, dead, live)))
                 out.append(P(d, "r = %s ? %s : %s;" % (x, live, dead), ("cfold2", x, live, dead)))
                 out.append(P(d, "r = %s; r = %s ? %s : %s; RdV = %s;" % (dead, x, dead, live, dead), ("cfold3", x, dead, live)))
+    # a folded ?: with value-producing operations next to more of them in the same statement (their temporaries are
+    # numbered in creation order; removing the dead ones must not disturb the live ones)
+    HY = ["clz32(RsV)", "clo32(RtV)", "a++", "fbrev(a)", "({ r = a; r + 1; })"]
+    for x in ("0", "1"):
+        for dead in HY:
+            for live in HY + ["a"]:
+                for tail in HY[:3]:
+                    t, e = (live, dead) if x == "1" else (dead, live)
+                    out.append(P(d, "r = (%s ? %s : %s) + %s;" % (x, t, e, tail), ("cfold4", x, dead, live, tail)))
+                    out.append(P(d, "r = %s + (%s ? %s : %s);" % (tail, x, t, e), ("cfold5", x, dead, live, tail)))
     for t in T8:
         out.append(P([(t, "v", "input"), ("int64_t", "r", "local")], "r = sizeof(v) + v;", ("sizeof", t)))
     return out
